@@ -325,7 +325,9 @@ func (k Keeper) newVestingAccount(ctx sdk.Context, toAddress sdk.AccAddress, amo
 	originalVesting := sdk.NewCoins(originalVestingCoin)
 
 	startTime := lockEnd
-	if lockEnd.Before(ctx.BlockTime()) {
+	if lockEnd.Before(ctx.BlockTime()) && !vestingEnd.Before(ctx.BlockTime()) {
+		// never start before the block time - unless the whole schedule lies in the past (a send without restart from
+		// a pool whose lock has ended): then start and end both stay at the lock end
 		startTime = ctx.BlockTime()
 	}
 
